@@ -31,6 +31,35 @@ def _bucket_eff(me: str) -> Any:
     return eff
 
 
+def mcast_table(ctx: Any, R: str) -> List[Ob]:
+    """Decision table of the multicast answer routine over (probe, seen in the last second, number of
+    questions, question type): probe -> now; else seen < 1 s -> the protected queue; else a single
+    SRV/A/AAAA/NSEC question -> now; else the aggregation queue."""
+    prog = ctx.prog
+    obs: List[Ob] = []
+    # (c) multicast answers
+    h = prog.func(QR + '.add_mcast_question_response')
+    me = h.params[0]
+    imm = prog.const('zeroconf._handlers.query_handler', '_RESPOND_IMMEDIATE_TYPES')
+    obs.append(ob(R, h, f'_RESPOND_IMMEDIATE_TYPES = {sorted(imm)}', 'single-question immediate types are NSEC, SRV, A, AAAA', set(imm) == {47, 33, 1, 28}))
+    for probe in (False, True):
+        for last_second in (False, True):
+            for nq, qtype in ((1, 33), (1, 12), (2, 33), (1, 1), (1, 16)):
+                atoms = {f'{me}._is_probe': probe, '._has_mcast_record_in_last_second()': last_second, f'{me}._questions': ['Q'] * nq, '.type': qtype}
+                oc, und = traces(ctx, h, atoms, _bucket_eff(me), loop_bound=1, for_iter=lambda n, e: True)
+                got = {frozenset(strip_ret(t)) for t in oc}
+                if probe:
+                    want = {'MCAST_NOW'}
+                elif last_second:
+                    want = {'LAST_SECOND'}
+                elif nq == 1 and qtype in (47, 33, 1, 28):
+                    want = {'MCAST_NOW'}
+                else:
+                    want = {'AGGREGATE'}
+                obs.append(ob(R, h, f'multicast answer: probe={probe} seen<1s={last_second} questions={nq} type={qtype}', f'goes to {sorted(want)}', got == {frozenset(want)} and not und, f'got {[sorted(x) for x in got]} undecided {und}'))
+    return obs
+
+
 @rule('C11.ROUTE', 'D', expect_min=18)
 def route(ctx: Any) -> List[Ob]:
     """Routing decision tables against the property text: per question, which of
@@ -87,26 +116,7 @@ def route(ctx: Any) -> List[Ob]:
             elif not probe:
                 want.add('UCAST')
             obs.append(ob(R, g, f'QU question: probe={probe}, multicast within a quarter TTL={recent}', f'answered via {sorted(want)}', got == {frozenset(want)} and not und, f'got {[sorted(x) for x in got]}'))
-    # (c) multicast answers
-    h = prog.func(QR + '.add_mcast_question_response')
-    me = h.params[0]
-    imm = prog.const('zeroconf._handlers.query_handler', '_RESPOND_IMMEDIATE_TYPES')
-    obs.append(ob(R, h, f'_RESPOND_IMMEDIATE_TYPES = {sorted(imm)}', 'single-question immediate types are NSEC, SRV, A, AAAA', set(imm) == {47, 33, 1, 28}))
-    for probe in (False, True):
-        for last_second in (False, True):
-            for nq, qtype in ((1, 33), (1, 12), (2, 33), (1, 1), (1, 16)):
-                atoms = {f'{me}._is_probe': probe, '._has_mcast_record_in_last_second()': last_second, f'{me}._questions': ['Q'] * nq, '.type': qtype}
-                oc, und = traces(ctx, h, atoms, _bucket_eff(me), loop_bound=1, for_iter=lambda n, e: True)
-                got = {frozenset(strip_ret(t)) for t in oc}
-                if probe:
-                    want = {'MCAST_NOW'}
-                elif last_second:
-                    want = {'LAST_SECOND'}
-                elif nq == 1 and qtype in (47, 33, 1, 28):
-                    want = {'MCAST_NOW'}
-                else:
-                    want = {'AGGREGATE'}
-                obs.append(ob(R, h, f'multicast answer: probe={probe} seen<1s={last_second} questions={nq} type={qtype}', f'goes to {sorted(want)}', got == {frozenset(want)} and not und, f'got {[sorted(x) for x in got]} undecided {und}'))
+    obs.extend(mcast_table(ctx, R))
     # (d) sinks
     s = prog.func(QH + '.handle_assembled_query')
     me = s.params[0]
